@@ -12,6 +12,7 @@ import (
 	"encoding/json"
 	"errors"
 	"fmt"
+	"io"
 	"net"
 	"os"
 	"path/filepath"
@@ -315,6 +316,140 @@ func runRogue(c *engine.Ctx, dc dialCase) {
 	}
 }
 
+// runRogueAfterFetch: the one Dial that both fetches the credentials of a freshly authorized node and
+// then connects: its first connection (the fetch) is relayed to the honest server, every later connection
+// of the same Dial is answered by a rogue TLS server holding a foreign self-signed certificate.
+func runRogueAfterFetch(c *engine.Ctx, dc dialCase) {
+	r := c.R
+	s := world.MustServer(world.ServerCfg{Backend: world.Inmem, StorageWrap: dc.NodeWrap})
+	defer s.Close()
+	lw, err := world.NewLW(s, world.LWCfg{})
+	if err != nil {
+		r.Broken(err.Error())
+		return
+	}
+	defer lw.Close()
+	n, err := world.NewNode(dc.NodeWrap, "")
+	if err != nil {
+		r.Broken(err.Error())
+		return
+	}
+	req, _ := n.FetchRequest()
+	if _, err := registration.AuthorizeNode(s.Ctx, s.Store, req, s.Opts()...); err != nil {
+		r.Broken("authorize: " + err.Error())
+		return
+	}
+	front, err := net.Listen("tcp", "127.0.0.1:0")
+	if err != nil {
+		r.Broken(err.Error())
+		return
+	}
+	defer front.Close()
+	rogueKeys := world.NewKeys()
+	var rogueHandshakes atomic.Int64
+	var conns atomic.Int64
+	go func() {
+		for {
+			cn, err := front.Accept()
+			if err != nil {
+				return
+			}
+			if conns.Add(1) == 1 {
+				// relay the fetch to the honest server
+				go func(cn net.Conn) {
+					defer cn.Close()
+					up, err := net.Dial("tcp", lw.Addr)
+					if err != nil {
+						return
+					}
+					defer up.Close()
+					done := make(chan struct{}, 2)
+					go func() { _, _ = io.Copy(up, cn); done <- struct{}{} }()
+					go func() { _, _ = io.Copy(cn, up); done <- struct{}{} }()
+					<-done
+				}(cn)
+				continue
+			}
+			go func(cn net.Conn) {
+				defer cn.Close()
+				_ = cn.SetDeadline(time.Now().Add(30 * time.Second))
+				now := time.Now()
+				srv := tls.Server(cn, &tls.Config{GetConfigForClient: func(h *tls.ClientHelloInfo) (*tls.Config, error) {
+					names := []string{"srv"}
+					if dc.Rogue == "self-signed-with-nonce" {
+						// read the nonce the way the real server does
+						var sb strings.Builder
+						for _, p := range h.SupportedProtos {
+							if strings.HasPrefix(p, nodeenrollment.AuthenticateNodeNextProtoV1Prefix) {
+								rest := strings.TrimPrefix(p, nodeenrollment.AuthenticateNodeNextProtoV1Prefix)
+								if i := strings.IndexByte(rest, '-'); i >= 0 {
+									sb.WriteString(rest[i+1:])
+								}
+							}
+						}
+						rq := new(types.GenerateServerCertificatesRequest)
+						if raw, err := base64.RawStdEncoding.DecodeString(sb.String()); err == nil && proto.Unmarshal(raw, rq) == nil {
+							names = append(names, nonceName(rq))
+						}
+					}
+					der := world.MintSelfSigned(rogueKeys, world.LeafSpec{SubjectKeyID: rogueKeys.Pkix, CommonName: "srv", DNSNames: names, EKU: []x509.ExtKeyUsage{x509.ExtKeyUsageServerAuth}, NotBefore: now.Add(-time.Hour), NotAfter: now.Add(time.Hour)})
+					roots, _ := s.Roots()
+					cas := x509.NewCertPool()
+					if roots != nil {
+						cas.AddCert(world.ParseCert(roots.Current.CertificateDer))
+						cas.AddCert(world.ParseCert(roots.Next.CertificateDer))
+					}
+					cfg := &tls.Config{Certificates: []tls.Certificate{{Certificate: [][]byte{der}, PrivateKey: rogueKeys.Priv}}, ClientAuth: tls.RequestClientCert, ClientCAs: cas, MinVersion: tls.VersionTLS13}
+					for _, p := range h.SupportedProtos {
+						if strings.HasPrefix(p, nodeenrollment.AuthenticateNodeNextProtoV1Prefix) {
+							cfg.NextProtos = []string{p}
+							break
+						}
+					}
+					return cfg, nil
+				}})
+				if srv.Handshake() == nil {
+					rogueHandshakes.Add(1)
+					one := make([]byte, 1)
+					_, _ = srv.Read(one)
+				}
+			}(cn)
+		}
+	}()
+	conn, derr := protocol.Dial(s.Ctx, n.Store, front.Addr().String(), n.NodeOpts()...)
+	if conn != nil {
+		defer conn.Close()
+	}
+	r.Eval(engine.J(dc), true)
+	stored, serr := n.Stored()
+	switch {
+	case derr == nil:
+		r.Violation("connected-to-untrusted-peer:after-fetch:"+dc.Rogue, fmt.Sprintf("the Dial that fetched the node's credentials then completed a handshake with a peer holding a foreign self-signed certificate (rogue completed %d handshakes)", rogueHandshakes.Load()), dc)
+	case conns.Load() < 2:
+		r.Count("rogue_after_fetch_not_reached", 1)
+	default:
+		r.Count("rogue_rejected:after-fetch:"+dc.Rogue, 1)
+	}
+	if serr == nil && len(stored.CertificateBundles) == 2 {
+		// the fetch itself was honest: a clean dial to the real server must now work
+		n.Creds = stored
+		c2, err := protocol.Dial(s.Ctx, n.Store, lw.Addr, n.NodeOpts()...)
+		if err != nil {
+			r.Violation("honest-dial-failed", "after a fetch through a relay the node could not connect to its own server: "+err.Error(), dc)
+			return
+		}
+		defer c2.Close()
+		if rec, werr := lw.Wait(c2.LocalAddr().String()); werr == nil {
+			if rec.Returned && rec.Conn != nil {
+				rec.Conn.Close()
+			}
+			if rec.Authenticated() {
+				r.Count("clean_dial_after_relayed_fetch", 1)
+			}
+		}
+	}
+}
+
 // ---------------------------------------------------------------------------
 
 func runHonest(c *engine.Ctx, dc dialCase) {
@@ -578,6 +713,8 @@ func runDialAdv(c *engine.Ctx) engine.Result {
 		switch dc.Kind {
 		case "rogue":
 			runRogue(c, dc)
+		case "rogue-after-fetch":
+			runRogueAfterFetch(c, dc)
 		case "honest":
 			runHonest(c, dc)
 		default:
@@ -596,6 +733,11 @@ func runDialAdv(c *engine.Ctx) engine.Result {
 					}
 					cases = append(cases, dialCase{Kind: "rogue", Rogue: k, NodeWrap: nw, World: wk})
 				}
+			}
+		}
+		for _, nw := range []bool{false, true} {
+			for _, k := range []string{"self-signed-no-nonce", "self-signed-with-nonce"} {
+				cases = append(cases, dialCase{Kind: "rogue-after-fetch", Rogue: k, NodeWrap: nw})
 			}
 		}
 		for _, nw := range []bool{false, true} {
@@ -629,6 +771,8 @@ func runDialAdv(c *engine.Ctx) engine.Result {
 		switch cases[i].Kind {
 		case "rogue":
 			runRogue(c, cases[i])
+		case "rogue-after-fetch":
+			runRogueAfterFetch(c, cases[i])
 		case "honest":
 			runHonest(c, cases[i])
 		default:
@@ -641,6 +785,9 @@ func runDialAdv(c *engine.Ctx) engine.Result {
 		}
 	}
 	r.Require("control_accepted", 2)
+	r.Require("rogue_rejected:after-fetch:self-signed-no-nonce", 2)
+	r.Require("rogue_rejected:after-fetch:self-signed-with-nonce", 2)
+	r.Require("clean_dial_after_relayed_fetch", 4)
 	r.Require("honest_dials_authenticated", 20)
 	r.Require("honest_dials_over_unix_socket", 4)
 	r.Require("pending_dials_report_not_authorized", 10)
